@@ -534,6 +534,12 @@ def _error_path_checks(rng, tier, shipped, is_v2):
                 scenarios.append(("shipped file %s mutated [%s]" % (p, d), m))
             for _ in range(260 if quick else 4000):
                 scenarios.append(("token soup", _soup(rng, ver)))
+            if ver == "2.x":
+                # import statements: repeated / reordered / nested imports of library modules (the loader resolves them in a loop)
+                body = "\nflow main\n  match Never()\n"
+                for imps in (["core", "core"], ["core", "core", "core"], ["guardrails", "core", "guardrails"], ["core", "llm", "core"],
+                             ["timing", "timing"], ["core", "guardrails"], ["avatars", "core", "avatars", "core"]):
+                    scenarios.append(("imports %s" % imps, "".join("import %s\n" % m for m in imps) + body))
             rng.shuffle(scenarios)
             cfg_key = ver
             for (label, content) in scenarios:
